@@ -229,31 +229,34 @@ def _sample_actions(rng, space, n):
     return out
 
 
-def _hostile(ctx, label, states, frac_idx):
-    """Replace the physical part of some pool states by values far from the reset distribution."""
+def _hostile(ctx, env, states, frac_idx):
+    """Replace the physical part of some pool states by values far from the reset distribution (so that
+    terminal / clipping / wall branches are taken by some pool items)."""
     import equinox as eqx
     from jax import numpy as jnp
 
     rng = ctx.rng
     u = states.unwrapped
-    n = len(frac_idx)
-    if n == 0:
+    if len(frac_idx) == 0:
         return states
     idx = np.asarray(frac_idx)
     if hasattr(u, "y"):  # classic control
         y = np.array(u.y)
         d = y.shape[-1]
-        base = {"CartPole": lambda: rng.normal(0, [2.0, 2.0, 0.3, 2.0]),
-                "MountainCar": lambda: np.array([rng.uniform(-1.2, 0.6), rng.uniform(-0.07, 0.07)]),
-                "ContinuousMountainCar": lambda: np.array([rng.uniform(-1.2, 0.6), rng.uniform(-0.07, 0.07)]),
-                "Acrobot": lambda: np.concatenate([rng.uniform(-np.pi, np.pi, 2), rng.uniform(-4, 4, 2)]),
-                "Pendulum": lambda: np.array([rng.uniform(-np.pi, np.pi), rng.uniform(-12, 12)])}
-        gen = None
-        for k, g in base.items():
-            if label.endswith(k) or f"({k}" in label or label == k:
-                gen = g
-        if gen is None:
-            gen = lambda: rng.normal(0, 1.0, size=d)  # noqa: E731
+
+        def car():  # half of them at the goal side of the hill
+            if rng.random() < 0.5:
+                return np.array([rng.uniform(0.4, 0.6), rng.uniform(-0.02, 0.07)])
+            return np.array([rng.uniform(-1.2, 0.6), rng.uniform(-0.07, 0.07)])
+
+        def acro():  # half of them swung up
+            if rng.random() < 0.5:
+                return np.concatenate([[rng.uniform(2.5, 3.7), rng.uniform(-0.5, 0.5)], rng.uniform(-4, 4, 2)])
+            return np.concatenate([rng.uniform(-np.pi, np.pi, 2), rng.uniform(-4, 4, 2)])
+
+        gen = {"CartPole": lambda: rng.normal(0, [2.0, 2.0, 0.3, 2.0]), "MountainCar": car, "ContinuousMountainCar": car,
+               "Acrobot": acro, "Pendulum": lambda: np.array([rng.uniform(-np.pi, np.pi), rng.uniform(-12, 12)])
+               }.get(type(env.unwrapped).__name__, lambda: rng.normal(0, 1.0, size=d))
         for i in idx:
             y[i] = gen()
         return eqx.tree_at(lambda s: s.unwrapped.y, states, jnp.asarray(y, u.y.dtype))
@@ -284,7 +287,7 @@ def _build_pool(ctx, label, env, N, depth, kseed):
     d[0] = 0
     S = _tstack([_tidx(hist[int(d[i])], i) for i in range(N)])
     host = [i for i in range(N) if i % 3 == 2]
-    S = _hostile(ctx, label, S, host)
+    S = _hostile(ctx, env, S, host)
     A = jnp.asarray(_sample_actions(ctx.rng, env.action_space, N))
     K2 = jr.split(ctx.key(kseed + 50), N)
     NS = vtrans(S, A, K2)
@@ -327,9 +330,6 @@ class _EnvJudge:
     def run(self):
         import time
 
-        import equinox as eqx
-        import jax
-        from jax import random as jr
 
         ctx, env, plan = self.ctx, self.env, self.plan
         t0 = time.time()
@@ -405,7 +405,6 @@ class _EnvJudge:
     def _one_fn(self, fn, item, N):
         import equinox as eqx
         import jax
-        from jax import numpy as jnp
 
         ctx, env, plan, label = self.ctx, self.env, self.plan, self.label
         rng = ctx.rng
@@ -424,7 +423,7 @@ class _EnvJudge:
             ref[int(i)] = o
         self.ref[fn] = ref
         varies = _varies(ref)
-        ctx.monitor(f"functions_with_input_dependent_answers" if varies else "functions_with_constant_answers")
+        ctx.monitor("functions_with_input_dependent_answers" if varies else "functions_with_constant_answers")
         dg = [_digest(*item(i)[:2], item(i)[3]) for i in range(N)]
         for i in range(N):
             ctx.case({"env": label, "fn": fn, "mode": "jit", "i": i, "h": dg[i]}, nontrivial=varies, cls=f"{self.kind}/{fn}/jit")
@@ -464,6 +463,18 @@ class _EnvJudge:
                         self.viol(f"{fn}-eager-answer-depends-on-call-history", {"fn": fn, "i": i})
                 else:
                     first[i] = o
+        # ---- plain jax.jit with the environment closed over (its arrays become compile-time constants)
+        nc = plan.get("closure_jit", 0) if (fn not in HEAVY or plan.get("closure_jit_heavy", True)) else 0
+        if nc:
+            cj = jax.jit(lambda s, a, ns, k: f(env, s, a, ns, k))
+            for i in [int(x) for x in rng.permutation(N)[:nc]]:
+                o = self._call("closure-jit", fn, cj, *item(i))
+                if o is _RAISED:
+                    break
+                ctx.monitor("closure_jit_calls")
+                ctx.case({"env": label, "fn": fn, "mode": "closure-jit", "i": i, "h": dg[i]}, nontrivial=varies,
+                         cls=f"{self.kind}/{fn}/closure-jit")
+                self._judge(fn, "closure-jit", ref[i], o, item(i), {"i": i}, varies)
         # ---- op-by-op (disable_jit), classic control only
         nd = plan.get("disable_jit", 0) if fn != "reset" else min(1, plan.get("disable_jit", 0))
         for i in [int(x) for x in rng.permutation(N)[:nd]]:
@@ -566,21 +577,27 @@ class _EnvJudge:
 _RAISED = object()
 
 
-def _plan(ctx, kind):
+class _Skip(Exception):
+    """This configuration cannot be judged further (already reported)."""
+
+
+def _plan(ctx, kind, heavy=False):
     q = ctx.quick
     fns = ["initial", "transition", "observation", "reward", "terminal", "truncate", "action_mask", "infos", "step", "reset"]
     if kind in ("classic", "wrapper"):
         return dict(N=ctx.n(9, 20), depth=ctx.n(4, 8), fns=fns, repeat=ctx.n(4, 8), eager=ctx.n(3, 5), eager_heavy=ctx.n(3, 5),
                     disable_jit=(ctx.n(1, 2) if kind == "classic" else 0), sizes=(1, 2, 7), sizes_heavy=(1, 2, 7),
-                    batches=ctx.n(1, 3), filter_vmap=7, second_instance=(kind == "classic"))
+                    batches=ctx.n(1, 3), filter_vmap=7, second_instance=(kind == "classic"), closure_jit=ctx.n(2, 3))
     if kind == "mujoco":
-        return dict(N=ctx.n(8, 14), depth=ctx.n(4, 8), fns=fns, repeat=ctx.n(3, 6), eager=ctx.n(2, 3), eager_heavy=ctx.n(2, 3),
-                    sizes=(1, 2, 7), sizes_heavy=((2, 7) if q else (1, 2, 7)), batches=ctx.n(1, 2),
-                    filter_vmap=7, filter_vmap_jit=True, filter_vmap_heavy=not q, second_instance=True)
+        small = q or heavy  # Ant / Humanoid / HumanoidStandup compile for minutes: the thorough tier keeps the quick shape
+        return dict(N=ctx.n(8, 10 if heavy else 14), depth=ctx.n(4, 8), fns=fns, repeat=ctx.n(3, 6), eager=ctx.n(2, 3),
+                    eager_heavy=(2 if small else 3), sizes=(1, 2, 7), sizes_heavy=((2, 7) if small else (1, 2, 7)),
+                    batches=(1 if small else 2), filter_vmap=7, filter_vmap_jit=True, filter_vmap_heavy=not small,
+                    second_instance=True, closure_jit=2, closure_jit_heavy=False)
     if kind == "g1":
         return dict(N=6, depth=2, fns=["initial", "transition", "observation", "reward", "terminal", "truncate"],
                     repeat=3, eager=2, eager_heavy=0, sizes=(1, 2), sizes_heavy=(2,), batches=1, filter_vmap=0,
-                    second_instance=False)
+                    second_instance=False, closure_jit=0)
     raise ValueError(kind)
 
 
@@ -615,7 +632,7 @@ def u_mujoco(ctx, name):
     import lerax.env.mujoco as mj
 
     env = getattr(mj, name)()
-    _run_env(ctx, name, env, "mujoco", _tol_mujoco)
+    _run_env(ctx, name, env, "mujoco", _tol_mujoco, _plan(ctx, "mujoco", heavy=name in ("Ant", "Humanoid", "HumanoidStandup")))
     ctx.require("jit_calls", 30)
     ctx.require("eager_calls", 6)
     ctx.require("vmapped_members_compared", 50)
@@ -633,7 +650,7 @@ def u_g1(ctx):
 
 # ------------------------------------------------------------------------------------------ wrapper stacks
 def _mdp(ctx, kind="discrete", obs_kind="onehot", masks=False, nS=None, nA=None, n_starts=2, p_term=0.25, p_trunc=0.1):
-    from vlib.mdp import FiniteMDP, RefMDP, random_tables
+    from vlib.mdp import FiniteMDP, random_tables
 
     rng = ctx.rng
     nS = nS or int(rng.integers(4, 8))
@@ -720,6 +737,678 @@ def u_wrappers(ctx, which):
     ctx.require("vmapped_members_compared", 100)
 
 
+# ------------------------------------------------------------------------------------------ collection half
+TOL_COLL = (1e-5, 1e-6)
+VMAP_AXES = "(None, None, eqx.if_array(0), None, 0)"
+
+
+def _tol_coll(path, fn):
+    return TOL_COLL
+
+
+def _field(path):
+    import re
+
+    names = re.findall(r"\.([A-Za-z_][A-Za-z_0-9]*)", path or "")
+    return (names[-1] if names else "output").replace("_", "-")
+
+
+def _perturb_floats(rng, tree, scale=1e-6):
+    import jax
+    from jax import numpy as jnp
+
+    def p(x):
+        if isinstance(x, jax.Array) and jnp.issubdtype(x.dtype, jnp.floating):
+            return (x * (1 + scale * rng.uniform(-1, 1, size=x.shape))).astype(x.dtype)
+        return x
+
+    return jax.tree.map(p, tree)
+
+
+def _chaotic(ctx, single, env, pol, ss_e, cb, key_e, out_e):
+    """Does the single-environment collection itself change its integer/bool outputs under a 1e-6 relative
+    perturbation of the policy parameters and the start state?  Then a divergence proves nothing."""
+    import equinox as eqx
+
+    for _ in range(3):
+        pol_p = _perturb_floats(ctx.rng, pol)
+        ss_p = eqx.tree_at(lambda s: s.env_state, ss_e, _perturb_floats(ctx.rng, ss_e.env_state))
+        try:
+            out_p = single(env, pol_p, ss_p, cb, key_e)
+        except Exception:
+            return False
+        bad = _cmp(out_e, out_p, _tol_coll, exact_only=True)
+        if bad is not None:
+            return True
+    return False
+
+
+def _twin(ctx, tag, kind, single, vm, env, pol, ss, cb, keys, E, info):
+    """vm(...) over E environments against E single calls.  Returns (batched output, {e: single output})."""
+    import jax
+
+    try:
+        out_b = vm(env, pol, ss, cb, keys)
+        jax.block_until_ready(out_b)
+    except Exception as ex:
+        ctx.violation(f"{kind}-vectorised-collection-raises", {**info, "error": f"{type(ex).__name__}: {str(ex)[:400]}"})
+        raise _Skip() from ex
+    singles = {}
+    order = [int(e) for e in ctx.rng.permutation(E)]
+    for e in order + order[:1]:
+        o = single(env, pol, _tidx(ss, e), cb, keys[e])
+        if e in singles:
+            ctx.monitor("repeat_calls_bit_compared")
+            if not _bits_equal(singles[e], o):
+                ctx.violation(f"{kind}-single-env-collection-depends-on-call-history", {**info, "env": e})
+        else:
+            singles[e] = o
+    dg = {e: _digest(singles[e]) for e in range(E)}
+    for e in range(E):
+        want, got = singles[e], _tidx(out_b, e)
+        distinct = any(dg[e] != dg[o] for o in range(E) if o != e)
+        ctx.case({**info, "env": e, "h": dg[e], "check": "twin"}, nontrivial=(E >= 2 and distinct), cls=f"{tag}/twin")
+        ctx.monitor("twin_streams_compared")
+        if distinct:
+            ctx.monitor("twin_streams_distinct_from_a_neighbour")
+        bad = _cmp(want, got, _tol_coll)
+        if bad is None:
+            continue
+        if bad["kind"] != "structure" and _chaotic(ctx, single, env, pol, _tidx(ss, e), cb, keys[e], want):
+            ctx.monitor("chaotic_divergences_excused")
+            continue
+        foreign = [o for o in range(E) if o != e and _cmp(singles[o], got, _tol_coll) is None]
+        ctx.violation(f"{kind}-vectorised-{_field(bad.get('leaf'))}-differs-from-single-env-collection",
+                      {**info, "env": e, "whole_output_equals_single_run_of_env": foreign, **bad})
+    return out_b, singles
+
+
+def _gae_per_env(ctx, tag, algo, env, pol, out_b, E, info):
+    import jax
+    from jax import random as jr
+    from vlib.refmodels import gae_ref
+
+    ss_b, buf = out_b
+    obs = jax.vmap(lambda s: env.observation(s, key=jr.key(0)))(ss_b.env_state)
+    lasts = np.asarray(jax.vmap(lambda ps, o: pol.value(ps, o)[1])(ss_b.policy_state, obs))
+    R, V, D = np.asarray(buf.rewards), np.asarray(buf.values), np.asarray(buf.dones)
+    A, RET = np.asarray(buf.advantages, np.float64), np.asarray(buf.returns, np.float64)
+    T = algo.num_steps
+    if R.shape != (E, T):
+        ctx.violation("vectorised-rollout-shape", {**info, "got": R.shape, "want": [E, T]})
+        return
+    g, lam = float(np.float32(algo.gamma)), float(np.float32(algo.gae_lambda))
+    for e in range(E):
+        a_ref, ret_ref, bound = gae_ref(R[e], V[e], D[e], lasts[e], g, lam)
+        tol = 1e-4 * bound + 1e-5
+        ctx.case({**info, "env": e, "check": "gae", "h": _digest(R[e], V[e], D[e])}, nontrivial=bool(D[e][:-1].any()) if T > 1 else False,
+                 cls=f"{tag}/gae-own-stream")
+        ctx.monitor("gae_streams_compared")
+        if not np.all(np.abs(A[e] - a_ref) <= tol):
+            k = int(np.argmax(np.abs(A[e] - a_ref) - tol))
+            others = {}
+            for o in range(E):
+                if o != e:
+                    ao, _, _ = gae_ref(R[o], V[o], D[o], lasts[o], g, lam)
+                    others[o] = float(ao[k])
+            ctx.violation("advantages-not-gae-of-own-stream", {**info, "env": e, "step": k, "got": float(A[e][k]),
+                                                                "want": float(a_ref[k]), "other_envs_reference_at_step": others,
+                                                                "dones": D[e].astype(int)})
+        elif not np.all(np.abs(RET[e] - ret_ref) <= tol + 1e-6 * np.abs(V[e])):
+            ctx.violation("returns-not-advantage-plus-own-value", {**info, "env": e, "got": RET[e], "want": ret_ref})
+    a_flat, _, _ = gae_ref(R.reshape(-1), V.reshape(-1), D.reshape(-1), lasts[-1], g, lam)
+    if np.max(np.abs(a_flat.reshape(E, T) - A)) > 1e-3:
+        ctx.monitor("cases_distinguishing_flattened_batch_gae")
+
+
+def _coll_env(ctx, i, kind, obs_kind="onehot", n_starts=None, force_tl=None):
+    from lerax.wrapper import TimeLimit
+    from vlib.mdp import FiniteMDP, RefMDP, random_tables
+
+    rng = ctx.rng
+    nS = int(rng.integers(4, 9))
+    if kind == "multibinary":
+        nvec, nA = (2, 2), 4
+    else:
+        nvec, nA = (), int(rng.integers(2, 5))
+    tabs = random_tables(rng, nS, nA, p_term=float(rng.choice([0.15, 0.35])), p_trunc=float(rng.choice([0.0, 0.0, 0.2])),
+                         n_starts=n_starts or int(rng.integers(1, 4)))
+    tl = force_tl if force_tl is not None else [None, 2, 3, 5][int(rng.integers(0, 4))]
+    kw = dict(trunc=tabs["trunc"], kind=kind, nvec=nvec)
+    env = FiniteMDP(tabs["P"], tabs["R"], tabs["term"], tabs["starts"], obs_kind=obs_kind,
+                    box_dim=int(rng.integers(1, 3)), **kw)
+    ref = RefMDP(tabs["P"], tabs["R"], tabs["term"], tabs["starts"], time_limit=tl, **kw)
+    if tl is not None:
+        env = TimeLimit(env, tl)
+    return env, ref, tabs, tl
+
+
+def _onpolicy_algo(ctx, i, E, T):
+    from lerax.algorithm import A2C, PPO, REINFORCE
+
+    cls = [PPO, A2C, REINFORCE][i % 3]
+    kw = dict(num_envs=E, num_steps=T, gamma=float(ctx.rng.uniform(0.6, 1.0)))
+    if cls is PPO:
+        kw.update(num_batches=1, num_epochs=1)
+    if cls is not REINFORCE:
+        kw.update(gae_lambda=float(ctx.rng.uniform(0.2, 1.0)))
+    return cls(**kw), cls.__name__
+
+
+def _mlp_ac(ctx, env, i):
+    from lerax.policy import MLPActorCriticPolicy
+
+    return MLPActorCriticPolicy(env, key=ctx.key(500 + i), feature_size=4, feature_width=8, value_width=8, action_width=8)
+
+
+def _vm_single(algo):
+    import equinox as eqx
+
+    vm = eqx.filter_jit(eqx.filter_vmap(algo.collect_rollout, in_axes=(None, None, eqx.if_array(0), None, 0)))
+    return vm, eqx.filter_jit(algo.collect_rollout)
+
+
+def _offsets(E):
+    return np.asarray([3, 40, 500, 6000, 70000, 11, 123][:E], np.int32)
+
+
+def _spy_iterations(ctx, algo, st, cb, n_iter, kbase):
+    """Run the real un-jitted algo.iteration with a recording wrapper on the class's `train`.
+    -> [(state before, state after, rollout buffer handed to train)]"""
+    captured = []
+    cls = type(algo)
+    orig = cls.train
+
+    def spy(self, policy, opt_state, buffer, *, key):
+        captured.append(buffer)
+        return orig(self, policy, opt_state, buffer, key=key)
+
+    cls.train = spy
+    out = []
+    try:
+        state = st
+        for it in range(n_iter):
+            prev = state
+            state = algo.iteration(state, key=ctx.key(kbase + it), callback=cb)
+            if len(captured) != it + 1:
+                ctx.inconc("train spy did not capture the rollout buffer")
+                return out
+            try:
+                np.asarray(captured[-1].rewards)
+            except Exception:
+                ctx.inconc("train spy saw tracers, not values")
+                return out
+            out.append((prev, state, captured[-1]))
+            ctx.monitor("iteration_rollouts_captured")
+    finally:
+        cls.train = orig
+    return out
+
+
+def _guard(ctx, what, f, n):
+    """Run f(0..n-1); a harness-side exception in one configuration must not hide the others."""
+    import traceback
+
+    for i in range(n):
+        try:
+            f(i)
+        except _Skip:
+            continue
+        except Exception as ex:
+            ctx.inconc(f"{what}[{i}]: harness exception {type(ex).__name__}: {str(ex)[:300]} | {traceback.format_exc()[-700:]}")
+
+
+def _pairwise_identical(x):
+    """[(e, o)] of environments whose arrays (leading axis = env) are identical."""
+    x = np.asarray(x)
+    return [(e, o) for e in range(x.shape[0]) for o in range(e + 1, x.shape[0]) if np.array_equal(x[e], x[o])]
+
+
+def u_coll_onpolicy(ctx):
+    import equinox as eqx
+    import jax
+    from jax import numpy as jnp
+    from jax import random as jr
+    from vlib.stubs import CountingACPolicy
+
+    def one(i):
+        kind = ["discrete", "box", "discrete", "multibinary"][i % 4]
+        stub = i % 4 == 2
+        env, ref, tabs, tl = _coll_env(ctx, i, kind)
+        E = [2, 3, 7, 4, 5][i % 5]
+        T = int(ctx.rng.choice([4, 9, 16, 33]))
+        algo, aname = _onpolicy_algo(ctx, i, E, T)
+        pol = CountingACPolicy(env, key=ctx.key(500 + i)) if stub else _mlp_ac(ctx, env, i)
+        info = {"algo": aname, "kind": kind, "policy": type(pol).__name__, "E": E, "T": T, "tl": tl, "i": i}
+        cb = algo.consolidate_callbacks(None)
+        st = eqx.filter_jit(lambda k: algo.reset(env, pol, key=k, callback=cb))(ctx.key(1000 + i))
+        ss = st.step_state
+        if stub:  # every environment gets its own, recognisable call counter
+            ss = eqx.tree_at(lambda s: s.policy_state.n, ss, jnp.asarray(_offsets(E)))
+        vm, single = _vm_single(algo)
+        keys = jr.split(ctx.key(2000 + i), E)
+        tag = f"onpolicy/{aname}/{kind}{'-stateful' if stub else ''}"
+        out_b, singles = _twin(ctx, tag, "onpolicy", single, vm, env, pol, ss, cb, keys, E, info)
+        _gae_per_env(ctx, tag, algo, env, pol, out_b, E, info)
+        # a second rollout continuing from the vectorised output (per-env carried states differ by now)
+        keys2 = jr.split(ctx.key(3000 + i), E)
+        out_b2, _ = _twin(ctx, tag + "/continued", "onpolicy", single, vm, env, pol, out_b[0], cb, keys2, E, {**info, "round": 2})
+        _gae_per_env(ctx, tag + "/continued", algo, env, pol, out_b2, E, {**info, "round": 2})
+    _guard(ctx, "onpolicy-twin", one, ctx.n(8, 40))
+
+    # ---- every environment must get its own key from iteration(): identical start states, continuous actions
+    def keys_one(j):
+        env, ref, tabs, tl = _coll_env(ctx, 100 + j, "box", n_starts=1)
+        E, T = [3, 2, 5][j % 3], 8
+        algo, aname = _onpolicy_algo(ctx, j, E, T)
+        pol = _mlp_ac(ctx, env, 100 + j)
+        cb = algo.consolidate_callbacks(None)
+        st = algo.reset(env, pol, key=ctx.key(4000 + j), callback=cb)
+        same = jax.tree.map(lambda x: jnp.broadcast_to(x[:1], x.shape) if isinstance(x, jax.Array) else x, st.step_state)
+        st = eqx.tree_at(lambda s: s.step_state, st, same)
+        recs = _spy_iterations(ctx, algo, st, cb, 1, 5000 + 10 * j)
+        for prev, state, buf in recs:
+            ctx.monitor("key_independence_checks")
+            dup = _pairwise_identical(buf.actions)
+            ctx.case({"check": "distinct-keys", "algo": aname, "E": E, "j": j, "h": _digest(buf.actions)}, nontrivial=True,
+                     cls="onpolicy/iteration-distinct-keys")
+            if dup:
+                ctx.violation("iteration-gives-parallel-envs-the-same-key",
+                              {"algo": aname, "E": E, "identical_env_pairs": dup, "actions_env0": np.asarray(buf.actions)[0][:4]})
+
+    _guard(ctx, "onpolicy-keys", keys_one, ctx.n(2, 6))
+    ctx.require("twin_streams_compared", 20)
+    ctx.require("twin_streams_distinct_from_a_neighbour", 10)
+    ctx.require("gae_streams_compared", 20)
+    ctx.require("cases_distinguishing_flattened_batch_gae", 3)
+    ctx.require("key_independence_checks", 2)
+
+
+def u_coll_offpolicy(ctx):
+    import equinox as eqx
+    import jax
+    from jax import numpy as jnp
+    from jax import random as jr
+    from lerax.algorithm import DQN, SAC
+    from lerax.algorithm.off_policy import AbstractOffPolicyStepState
+    from lerax.policy import MLPQPolicy, MLPSACPolicy
+    from vlib.stubs import CountingQPolicy
+
+    def one(i):
+        which = ["DQN", "SAC", "DQN-stateful", "SAC"][i % 4]
+        kind = "box" if which == "SAC" else "discrete"
+        env, ref, tabs, tl = _coll_env(ctx, i, kind)
+        E = [2, 3, 7, 4][i % 4]
+        S = int(ctx.rng.integers(1, 7))
+        cap = int(ctx.rng.choice([3, 5, 8, 16]))
+        ls = int(ctx.rng.choice([1, 2, cap, cap + 2]))
+        bsize = cap * E + int(ctx.rng.integers(0, E))  # not always divisible by E
+        batch = max(1, min(4, min(ls, cap)))
+        if which == "SAC":
+            algo = SAC(buffer_size=bsize, learning_starts=ls, num_envs=E, num_steps=S, batch_size=batch, q_width_size=8,
+                       q_depth=1, gamma=0.9)
+            pol = MLPSACPolicy(env, key=ctx.key(500 + i), feature_size=4, width_size=8)
+        else:
+            algo = DQN(buffer_size=bsize, learning_starts=ls, num_envs=E, num_steps=S, batch_size=batch,
+                       target_update_interval=3, gamma=0.9)
+            pol = (CountingQPolicy(env, key=ctx.key(500 + i)) if which == "DQN-stateful"
+                   else MLPQPolicy(env, key=ctx.key(500 + i), width_size=8, epsilon=0.5))
+        info = {"algo": which, "kind": kind, "policy": type(pol).__name__, "E": E, "S": S, "cap": cap,
+                "learning_starts": ls, "tl": tl, "i": i}
+        cb = algo.consolidate_callbacks(None)
+        tag = f"offpolicy/{which}"
+        # -- warm-up the way reset() does it (vmap of initial, vmap of collect_learning_starts), own keys
+        k_init, k_start = jr.split(ctx.key(1000 + i), E), jr.split(ctx.key(1500 + i), E)
+        init = lambda env, pol, ss, cb, k: AbstractOffPolicyStepState.initial(cap, env, pol, cb, k)  # noqa: E731
+        v_init = eqx.filter_jit(jax.vmap(lambda k: AbstractOffPolicyStepState.initial(cap, env, pol, cb, k)))
+        s_init = eqx.filter_jit(lambda env, pol, ss, cb, k: init(env, pol, ss, cb, k))
+        dummy = jnp.zeros((E,))
+        ss0, _ = _twin(ctx, tag + "/initial", "offpolicy-initial", s_init, lambda env, pol, ss, cb, ks: v_init(ks),
+                       env, pol, dummy, cb, k_init, E, {**info, "phase": "initial"})
+        v_ls = eqx.filter_jit(jax.vmap(algo.collect_learning_starts, in_axes=(None, None, 0, None, 0)))
+        s_ls = eqx.filter_jit(algo.collect_learning_starts)
+        ss1, _ = _twin(ctx, tag + "/warm-up", "offpolicy-warm-up", s_ls, v_ls, env, pol, ss0, cb, k_start, E,
+                       {**info, "phase": "warm-up"})
+        # -- the real reset(), then collect_rollout twice (buffers wrap)
+        st = eqx.filter_jit(lambda k: algo.reset(env, pol, key=k, callback=cb))(ctx.key(2000 + i))
+        ss = st.step_state
+        if which == "DQN-stateful":
+            ss = eqx.tree_at(lambda s: s.policy_state.n, ss, jnp.asarray(_offsets(E)))
+        vm, single = _vm_single(algo)
+        for rnd in range(2):
+            keys = jr.split(ctx.key(3000 + 10 * i + rnd), E)
+            ss, _ = _twin(ctx, tag + "/collect", "offpolicy", single, vm, env, pol, ss, cb, keys, E,
+                          {**info, "phase": f"collect{rnd + 1}"})
+        if int(np.max(np.asarray(ss.buffer.position))) > ss.buffer.rewards.shape[-1]:
+            ctx.monitor("twin_cases_with_wrapped_replay_buffer")
+    _guard(ctx, "offpolicy-twin", one, ctx.n(8, 40))
+
+    # ---- every environment must get its own key from reset() and iteration(): continuous actions
+    def keys_one(j):
+        env, ref, tabs, tl = _coll_env(ctx, 100 + j, "box", n_starts=1)
+        E, S, cap, ls = [3, 2, 5][j % 3], 3, 16, 4
+        algo = SAC(buffer_size=cap * E, learning_starts=ls, num_envs=E, num_steps=S, batch_size=2, q_width_size=8, q_depth=1)
+        pol = MLPSACPolicy(env, key=ctx.key(600 + j), feature_size=4, width_size=8)
+        cb = algo.consolidate_callbacks(None)
+        st = eqx.filter_jit(lambda k: algo.reset(env, pol, key=k, callback=cb))(ctx.key(4000 + j))
+        acts = np.asarray(st.step_state.buffer.actions)[:, :ls]
+        ctx.monitor("key_independence_checks")
+        ctx.case({"check": "distinct-keys-reset", "E": E, "j": j, "h": _digest(acts)}, nontrivial=True, cls="offpolicy/reset-distinct-keys")
+        if _pairwise_identical(acts):
+            ctx.violation("reset-gives-parallel-envs-the-same-key", {"E": E, "identical_env_pairs": _pairwise_identical(acts)})
+        same = jax.tree.map(lambda x: jnp.broadcast_to(x[:1], x.shape) if isinstance(x, jax.Array) else x, st.step_state)
+        st = eqx.tree_at(lambda s: s.step_state, st, same)
+        st2 = eqx.filter_jit(lambda s, k: algo.iteration(s, key=k, callback=cb))(st, ctx.key(4500 + j))
+        acts = np.asarray(st2.step_state.buffer.actions)[:, ls:ls + S]
+        ctx.monitor("key_independence_checks")
+        ctx.case({"check": "distinct-keys-iteration", "E": E, "j": j, "h": _digest(acts)}, nontrivial=True,
+                 cls="offpolicy/iteration-distinct-keys")
+        if _pairwise_identical(acts):
+            ctx.violation("iteration-gives-parallel-envs-the-same-key", {"algo": "SAC", "E": E,
+                                                                         "identical_env_pairs": _pairwise_identical(acts)})
+
+    _guard(ctx, "offpolicy-keys", keys_one, ctx.n(2, 6))
+    ctx.require("twin_cases_with_wrapped_replay_buffer", 1)
+    ctx.require("twin_streams_compared", 40)
+    ctx.require("twin_streams_distinct_from_a_neighbour", 20)
+    ctx.require("key_independence_checks", 4)
+
+
+# ---- key-independent variant: deterministic table policy, interpreter rollouts
+def _unwrap_tl(env_state, tl):
+    if tl is not None:
+        return env_state.env_state, np.asarray(env_state.step_count)
+    return env_state, None
+
+
+def _judge_table(ctx, tag, ref, tl, table, V, gamma, lam, ss_in, ss_out, buf, E, info):
+    from vlib.refmodels import gae_ref
+
+    f_in, c_in = _unwrap_tl(ss_in.env_state, tl)
+    f_out, c_out = _unwrap_tl(ss_out.env_state, tl)
+    s_in, t_in = np.asarray(f_in.s), np.asarray(f_in.t)
+    s_out, t_out = np.asarray(f_out.s), np.asarray(f_out.t)
+    obs, act = np.asarray(buf.observations), np.asarray(buf.actions)
+    rew, done = np.asarray(buf.rewards, np.float64), np.asarray(buf.dones)
+    val, lp = np.asarray(buf.values, np.float64), np.asarray(buf.log_probs, np.float64)
+    adv, ret = np.asarray(buf.advantages, np.float64), np.asarray(buf.returns, np.float64)
+    T = obs.shape[1] if obs.ndim == 3 else -1
+    if obs.ndim != 3 or obs.shape[0] != E or rew.shape != (E, T):
+        ctx.violation("vectorised-rollout-shape", {**info, "obs": obs.shape, "rewards": rew.shape, "E": E})
+        return
+    # what the interpreter says each environment does (used to name the foreign stream in a witness)
+    for e in range(E):
+        s, t_ep = int(s_in[e]), int(t_in[e])
+        n_done, ok = 0, True
+        W = {"r": [], "v": [], "d": []}
+
+        def bad(field, d):
+            nonlocal ok
+            ok = False
+            ctx.violation(f"parallel-rollout-{field}-differs-from-interpreter", {**info, "env": e, "step": k, **d})
+
+        for k in range(T):
+            ctx.monitor("interpreter_steps")
+            so = int(np.argmax(obs[e, k]))
+            if so != s or abs(float(obs[e, k][s]) - 1.0) > 1e-6 or abs(float(np.sum(obs[e, k])) - 1.0) > 1e-6:
+                others = [o for o in range(E) if o != e and int(np.argmax(obs[o, k])) == so]
+                bad("observation", {"got_state": so, "want_state": s, "envs_in_that_state_at_this_step": others})
+                break
+            a = int(table[s])
+            if int(act[e, k]) != a:
+                bad("action", {"got": int(act[e, k]), "want": a, "state": s})
+                break
+            ns, r, term, trunc = ref.step(s, t_ep, a)
+            d = term or trunc
+            want_r = r + (gamma * float(V[ns]) if (trunc and not term) else 0.0)
+            W["r"].append(want_r), W["v"].append(float(V[s])), W["d"].append(d)
+            if bool(done[e, k]) != d:
+                bad("done", {"got": bool(done[e, k]), "want": d, "state": s, "t": t_ep})
+                break
+            if abs(rew[e, k] - want_r) > 2e-5 + 1e-4 * abs(want_r):
+                bad("reward", {"got": rew[e, k], "want": want_r, "state": s, "action": a, "row_mean_over_envs": float(np.mean(rew[:, k]))})
+            if abs(val[e, k] - float(V[s])) > 1e-5 + 1e-5 * abs(float(V[s])):
+                bad("value", {"got": val[e, k], "want": float(V[s]), "state": s})
+            if abs(lp[e, k]) > 1e-6:
+                bad("log-prob", {"got": lp[e, k], "want": 0.0})
+            if d:
+                n_done += 1
+                s_next = int(np.argmax(obs[e, k + 1])) if k + 1 < T else int(s_out[e])
+                if s_next not in ref.starts:
+                    bad("restart-state", {"got": s_next, "starts": ref.starts})
+                    break
+                s, t_ep = s_next, 0
+            else:
+                s, t_ep = ns, t_ep + 1
+        else:
+            if (int(s_out[e]), int(t_out[e])) != (s, t_ep) or (tl is not None and int(c_out[e]) != t_ep):
+                ctx.violation("parallel-rollout-carried-state-differs-from-interpreter",
+                              {**info, "env": e, "got": [int(s_out[e]), int(t_out[e])], "want": [s, t_ep],
+                               "all_envs_carried": [int(x) for x in s_out]})
+                ok = False
+            a_ref, ret_ref, bound = gae_ref(W["r"], W["v"], W["d"], float(V[s]), gamma, lam)
+            tol = 1e-4 * bound + 1e-5
+            ctx.monitor("interpreter_gae_streams")
+            if not np.all(np.abs(adv[e] - a_ref) <= tol):
+                kk = int(np.argmax(np.abs(adv[e] - a_ref) - tol))
+                ctx.violation("parallel-rollout-advantage-differs-from-interpreter",
+                              {**info, "env": e, "step": kk, "got": float(adv[e][kk]), "want": float(a_ref[kk]), "dones": W["d"]})
+                ok = False
+            elif not np.all(np.abs(ret[e] - ret_ref) <= tol):
+                ctx.violation("parallel-rollout-return-differs-from-interpreter", {**info, "env": e, "got": ret[e], "want": ret_ref})
+                ok = False
+        ctx.case({**info, "env": e, "start": int(s_in[e]), "dones": n_done, "h": _digest(ref.P, ref.R, act[e], done[e])},
+                 nontrivial=(E >= 2 and n_done > 0), cls=f"{tag}/{'with-done' if n_done else 'no-done'}")
+        ctx.monitor("interpreter_streams_judged")
+
+
+def u_coll_table(ctx):
+    import equinox as eqx
+    from jax import numpy as jnp
+    from vlib.mdp import FState
+    from vlib.stubs import TableACPolicy
+
+    def one(i):
+        single_start = i % 2 == 0
+        env, ref, tabs, tl = _coll_env(ctx, i, "discrete", n_starts=1 if single_start else 3)
+        nS, nA = ref.nS, ref.nA
+        table = ctx.rng.integers(0, nA, size=nS)
+        V = np.round(ctx.rng.normal(0, 1, size=nS), 3).astype(np.float32)
+        pol = TableACPolicy(env, table, V)
+        E = [2, 3, 4, 7][i % 4]
+        T = int(ctx.rng.choice([3, 6, 11, 20]))
+        algo, aname = _onpolicy_algo(ctx, i + (i // 3) % 2, E, T)  # PPO / A2C / REINFORCE in turn
+        info = {"algo": aname, "E": E, "T": T, "tl": tl, "single_start": single_start, "i": i}
+        cb = algo.consolidate_callbacks(None)
+        st = algo.reset(env, pol, key=ctx.key(1000 + i), callback=cb)
+        # distinct start states per environment (as far as the MDP has live states)
+        live = np.flatnonzero(~(ref.term | ref.trunc))
+        starts = ctx.rng.choice(live, size=E, replace=len(live) < E)
+        F = FState(jnp.asarray(starts, jnp.int32), jnp.zeros(E, jnp.int32), jnp.zeros(E, jnp.float32), jnp.asarray(starts, jnp.int32))
+        if tl is not None:
+            new_es = eqx.tree_at(lambda s: (s.env_state, s.step_count), st.step_state.env_state,
+                                 (F, jnp.zeros(E, st.step_state.env_state.step_count.dtype)))
+        else:
+            new_es = F
+        st = eqx.tree_at(lambda s: s.step_state.env_state, st, new_es)
+        info["starts"] = [int(x) for x in starts]
+        if len(set(info["starts"])) > 1:
+            ctx.monitor("table_cases_with_distinct_start_states")
+        recs = _spy_iterations(ctx, algo, st, cb, 2, 2000 + 10 * i)
+        for it, (prev, state, buf) in enumerate(recs):
+            p = prev.policy
+            _judge_table(ctx, f"table/{aname}", ref, tl, np.asarray(p.table), np.asarray(p.values, np.float64), algo.gamma,
+                         algo.gae_lambda, prev.step_state, state.step_state, buf, E, {**info, "iteration": it})
+
+    _guard(ctx, "table", one, ctx.n(6, 36))
+    ctx.require("iteration_rollouts_captured", 4)
+    ctx.require("interpreter_streams_judged", 10)
+    ctx.require("interpreter_gae_streams", 10)
+    ctx.require("table_cases_with_distinct_start_states", 2)
+
+
+# ---- stateful policies: one private call counter per environment
+def u_coll_stateful(ctx):
+    import equinox as eqx
+    from jax import numpy as jnp
+    from lerax.algorithm import DQN
+    from vlib.stubs import CountingACPolicy, CountingQPolicy
+
+    def one(i):
+        env, ref, tabs, tl = _coll_env(ctx, i, "discrete")
+        E = [3, 2, 4, 7][i % 4]
+        T = int(ctx.rng.choice([4, 9, 16]))
+        algo, aname = _onpolicy_algo(ctx, i, E, T)
+        pol = CountingACPolicy(env, key=ctx.key(500 + i))
+        info = {"algo": aname, "E": E, "T": T, "tl": tl, "i": i}
+        cb = algo.consolidate_callbacks(None)
+        st = algo.reset(env, pol, key=ctx.key(1000 + i), callback=cb)
+        st = eqx.tree_at(lambda s: s.step_state.policy_state.n, st, jnp.asarray(_offsets(E)))
+        recs = _spy_iterations(ctx, algo, st, cb, 2, 2000 + 10 * i)
+        for it, (prev, state, buf) in enumerate(recs):
+            n_in, n_out = np.asarray(prev.step_state.policy_state.n), np.asarray(state.step_state.policy_state.n)
+            stored, dones = np.asarray(buf.states.n), np.asarray(buf.dones)
+            obs, vals = np.asarray(buf.observations), np.asarray(buf.values, np.float64)
+            Vtab = np.asarray(prev.policy.values, np.float64)
+            if stored.shape != (E, T):
+                ctx.violation("vectorised-rollout-shape", {**info, "states": stored.shape})
+                continue
+            for e in range(E):
+                c, n_done, ok = int(n_in[e]), 0, True
+                for k in range(T):
+                    ctx.monitor("counter_steps_judged")
+                    if int(stored[e, k]) != c:
+                        others = [o for o in range(E) if o != e and int(stored[o, k]) == int(stored[e, k])]
+                        ctx.violation("policy-state-of-one-env-not-its-own-counter",
+                                      {**info, "iteration": it, "env": e, "step": k, "got": int(stored[e, k]), "want": c,
+                                       "envs_with_that_counter": others, "counters_in": [int(x) for x in n_in]})
+                        ok = False
+                        break
+                    want_v = float(Vtab[int(np.argmax(obs[e, k]))]) + 0.05 * c
+                    if abs(vals[e, k] - want_v) > 1e-4 + 1e-5 * abs(want_v):
+                        ctx.violation("value-computed-with-foreign-policy-state",
+                                      {**info, "iteration": it, "env": e, "step": k, "got": vals[e, k], "want": want_v, "counter": c})
+                        ok = False
+                        break
+                    c = 0 if dones[e, k] else c + 1
+                    n_done += int(dones[e, k])
+                if ok and int(n_out[e]) != c:
+                    ctx.violation("carried-policy-state-not-own-counter", {**info, "iteration": it, "env": e, "got": int(n_out[e]),
+                                                                           "want": c, "all": [int(x) for x in n_out]})
+                ctx.case({**info, "iteration": it, "env": e, "counter_in": int(n_in[e]), "dones": n_done,
+                          "h": _digest(stored[e], dones[e])}, nontrivial=(E >= 2 and n_done > 0), cls=f"stateful/{aname}")
+                ctx.monitor("counter_streams_judged")
+    _guard(ctx, "stateful-onpolicy", one, ctx.n(4, 24))
+
+    # ---- DQN with a counting Q policy: per-environment replay buffers carry each env's own counter
+    def dqn_one(i):
+        env, ref, tabs, tl = _coll_env(ctx, 50 + i, "discrete")
+        E = [2, 3, 5, 7][i % 4]
+        S, K = int(ctx.rng.integers(1, 6)), 2
+        ls = int(ctx.rng.integers(1, 5))
+        cap = ls + K * S + 1
+        algo = DQN(buffer_size=cap * E, learning_starts=ls, num_envs=E, num_steps=S, batch_size=1, target_update_interval=2, gamma=0.9)
+        pol = CountingQPolicy(env, key=ctx.key(700 + i))
+        info = {"algo": "DQN", "E": E, "S": S, "learning_starts": ls, "cap": cap, "tl": tl, "i": i}
+        cb = algo.consolidate_callbacks(None)
+        st = eqx.filter_jit(lambda k: algo.reset(env, pol, key=k, callback=cb))(ctx.key(1000 + i))
+        offs = _offsets(E)
+        st = eqx.tree_at(lambda s: s.step_state.policy_state.n, st, jnp.asarray(offs))
+        it_fn = eqx.filter_jit(lambda s, k: algo.iteration(s, key=k, callback=cb))
+        for k in range(K):
+            st = it_fn(st, ctx.key(3000 + 10 * i + k))
+        b = st.step_state.buffer
+        pos, sn, nn, dn = np.asarray(b.position), np.asarray(b.states.n), np.asarray(b.next_states.n), np.asarray(b.dones)
+        n_out = np.asarray(st.step_state.policy_state.n)
+        for e in range(E):
+            if int(pos[e]) != ls + K * S or sn.shape[1] != cap:
+                ctx.violation("per-env-replay-position-wrong", {**info, "env": e, "position": int(pos[e]), "want": ls + K * S, "cap": sn.shape[1]})
+                continue
+            c, n_done, ok = 0, 0, True
+            for j in range(ls + K * S):
+                if j == ls:
+                    c = int(offs[e])  # the counter the harness planted after the warm-up
+                ctx.monitor("counter_steps_judged")
+                if int(sn[e, j]) != c or int(nn[e, j]) != c + 1:
+                    others = [o for o in range(E) if o != e and int(sn[o, j]) == int(sn[e, j])]
+                    ctx.violation("policy-state-of-one-env-not-its-own-counter",
+                                  {**info, "env": e, "slot": j, "got": [int(sn[e, j]), int(nn[e, j])], "want": [c, c + 1],
+                                   "envs_with_that_counter": others})
+                    ok = False
+                    break
+                c = 0 if dn[e, j] else c + 1
+                n_done += int(dn[e, j])
+            if ok and int(n_out[e]) != c:
+                ctx.violation("carried-policy-state-not-own-counter", {**info, "env": e, "got": int(n_out[e]), "want": c})
+            ctx.case({**info, "env": e, "dones": n_done, "h": _digest(sn[e], dn[e])}, nontrivial=(n_done > 0), cls="stateful/DQN")
+            ctx.monitor("counter_streams_judged")
+
+    _guard(ctx, "stateful-dqn", dqn_one, ctx.n(4, 20))
+    ctx.require("counter_streams_judged", 16)
+    ctx.require("counter_steps_judged", 100)
+    ctx.require("iteration_rollouts_captured", 4)
+
+
+# ---- twins on built-in environments (diffrax inside the collection scan)
+def u_coll_realenv(ctx):
+    import equinox as eqx
+    import lerax.env.classic_control as cc
+    from jax import random as jr
+    from lerax.algorithm import A2C, DQN, PPO, SAC
+    from lerax.policy import MLPActorCriticPolicy, MLPQPolicy, MLPSACPolicy
+    from lerax.wrapper import TimeLimit
+
+    def ac(env, i):
+        return MLPActorCriticPolicy(env, key=ctx.key(500 + i), feature_size=4, feature_width=8, value_width=8, action_width=8)
+
+    configs = [
+        ("PPO/CartPole", lambda: cc.CartPole(), lambda E: PPO(num_envs=E, num_steps=ctx.n(24, 48), num_batches=1, num_epochs=1), ac, 3),
+        ("SAC/TimeLimit(Pendulum)", lambda: TimeLimit(cc.Pendulum(), 5),
+         lambda E: SAC(buffer_size=12 * E, learning_starts=7, num_envs=E, num_steps=8, batch_size=2, q_width_size=8, q_depth=1),
+         lambda env, i: MLPSACPolicy(env, key=ctx.key(500 + i), feature_size=4, width_size=8), 2),
+        ("DQN/CartPole", lambda: cc.CartPole(),
+         lambda E: DQN(buffer_size=20 * E, learning_starts=12, num_envs=E, num_steps=16, batch_size=2),
+         lambda env, i: MLPQPolicy(env, key=ctx.key(500 + i), width_size=8, epsilon=0.5), 3),
+        ("A2C/TimeLimit(Pendulum)", lambda: TimeLimit(cc.Pendulum(), 6), lambda E: A2C(num_envs=E, num_steps=ctx.n(16, 32)), ac, 7),
+        ("PPO/TimeLimit(MountainCar)", lambda: TimeLimit(cc.MountainCar(), 4),
+         lambda E: PPO(num_envs=E, num_steps=ctx.n(12, 24), num_batches=1, num_epochs=1), ac, 4),
+        ("A2C/Acrobot", lambda: cc.Acrobot(), lambda E: A2C(num_envs=E, num_steps=ctx.n(12, 24)), ac, 2),
+    ]
+    if ctx.quick:
+        configs = configs[:4]
+    def one(i):
+        label, mk_env, mk_algo, mk_pol, E = configs[i]
+        env = mk_env()
+        algo = mk_algo(E)
+        pol = mk_pol(env, i)
+        onp = hasattr(algo, "gae_lambda")
+        info = {"config": label, "E": E, "i": i}
+        cb = algo.consolidate_callbacks(None)
+        st = eqx.filter_jit(lambda k: algo.reset(env, pol, key=k, callback=cb))(ctx.key(1000 + i))
+        ss = st.step_state
+        # reset(): every environment starts from its own draw (continuous start states)
+        y0 = np.asarray(ss.env_state.unwrapped.y) if onp else None
+        if onp:
+            ctx.monitor("key_independence_checks")
+            if _pairwise_identical(y0):
+                ctx.violation("reset-gives-parallel-envs-the-same-key", {**info, "identical_env_pairs": _pairwise_identical(y0), "y0": y0})
+        vm, single = _vm_single(algo)
+        keys = jr.split(ctx.key(2000 + i), E)
+        out_b, _ = _twin(ctx, f"realenv/{label}", "onpolicy" if onp else "offpolicy", single, vm, env, pol, ss, cb, keys, E, info)
+        if onp:
+            _gae_per_env(ctx, f"realenv/{label}", algo, env, pol, out_b, E, info)
+            if np.asarray(out_b[1].dones).any():
+                ctx.monitor("realenv_rollouts_with_episode_end")
+        else:
+            if np.asarray(out_b.buffer.dones).any():
+                ctx.monitor("realenv_rollouts_with_episode_end")
+
+    _guard(ctx, "realenv", one, len(configs))
+    ctx.require("twin_streams_compared", 8)
+    ctx.require("twin_streams_distinct_from_a_neighbour", 8)
+    ctx.require("realenv_rollouts_with_episode_end", 2)
+
+
 def run_unit(name, ctx):
     import warnings
 
@@ -732,4 +1421,5 @@ def run_unit(name, ctx):
         return u_g1(ctx)
     if name in WRAP_UNITS:
         return u_wrappers(ctx, name)
-    raise ValueError(name)
+    return {"coll-onpolicy": u_coll_onpolicy, "coll-offpolicy": u_coll_offpolicy, "coll-table": u_coll_table,
+            "coll-stateful": u_coll_stateful, "coll-realenv": u_coll_realenv}[name](ctx)
